@@ -185,7 +185,7 @@ CHECKS = {
     "C20": (
         "fault_enumeration",
         "exhaustive single-fault injection: every fault of the list x every base scenario through main(), each base first run fault-free",
-        "8 base scenarios (forward/reversed x single/multi-file forcing x discrete/continuous release) x 64 single faults through main(), and the same faults "
+        "8 base scenarios (forward/reversed x single/multi-file forcing x discrete/continuous release) x 66 single faults through main(), and the same faults "
         "through `python -m ladim` (one base in quick, all in thorough) reading the process exit status: the run must end with an error, no output record "
         "may exist and the recording IBM must never have been called.",
         "One fault at a time; the error kind is recorded, not prescribed.",
